@@ -56,6 +56,12 @@ def input_trees(r):
     out["noclobber-collision"] = ([D("src")] + [F("src/f%d" % i, 100, i + 1) for i in range(30)] + [D("dst"), D("dst/src"), F("dst/src/f29", 5, 99)],
                                   ["-n", "-r", "src", "dst"])
     out["block-device"] = ([D("src")] + [F("src/f%d" % i, 100, i + 1) for i in range(20)] + [{"p": "src/zblk", "k": "blk", "rdev": [7, 99]}], ["-r", "src", "dst"])
+    # every worker dies early (failure on the special-file path sends no Error update) while hundreds of operations remain to be queued
+    lots = [D("src2")] + [F("src2/f%03d" % i, 10, i + 1) for i in range(400)]
+    out["all-workers-dead-queue-long"] = ([D("src1"), {"p": "src1/ff", "k": "fifo"}, D("dst"), D("dst/src1"), D("dst/src1/ff"), F("dst/src1/ff/x", 1, 5)] + lots,
+                                          ["-r", "src1", "src2", "dst"])
+    out["two-fifos-blocked-queue-long"] = ([D("src1"), {"p": "src1/f1", "k": "fifo"}, {"p": "src1/f2", "k": "fifo"}, D("dst"), D("dst/src1"), D("dst/src1/f1"),
+                                            F("dst/src1/f1/x", 1, 5), D("dst/src1/f2"), F("dst/src1/f2/x", 1, 6)] + lots, ["-r", "src1", "src2", "dst"])
     return out
 
 
@@ -87,6 +93,8 @@ def gen_cases(tier, seed):
         yield {"family": "Bbase", "spec": small + [F("src/big", 400000, 7)], "args": ["--driver", driver, "-w", "3"] + margs, "driver": driver,
                "name": "queue-long", "fs": "ext4", "per_site": 1, "sseed": r.randrange(1 << 30), "max": 500 if tier == "quick" else 100000}
     # family C: library API
+    for c in _api_all_fail(trees, r, tier):
+        yield c
     n = 60 if tier == "quick" else 1200
     for i in range(n):
         driver = ["parfile", "parblock"][i % 2]
@@ -103,6 +111,17 @@ def gen_cases(tier, seed):
         yield {"family": "C", "name": name, "spec": spec, "driver": driver, "updater": upd, "mode": mode, "workers": r.choice([1, 2, 4, 16]),
                "bs": r.choice([4096, 65536, 2 ** 63]), "flags": (["--no-clobber"] if name == "noclobber-collision" else []), "fault": fault,
                "plan": sch, "fs": "ext4", "paths": [a for a in args if not a.startswith("-") and not a[0].isdigit()]}
+
+
+def _api_all_fail(trees, r, tier):
+    spec, args = trees["many-files"]
+    for driver in ("parfile", "parblock"):
+        for upd in ("channel", "record", "noop"):
+            for w in (1, 2):
+                for mode in ("live", "after"):
+                    yield {"family": "C", "name": "many-files", "spec": spec, "driver": driver, "updater": upd, "mode": mode, "workers": w, "bs": 4096, "flags": [],
+                           "fault": {"sys": r.choice(["openat", "ftruncate", "copy_file_range"]), "nth": 0, "from": 1, "upto": w, "errno": 5, "dst_only": True},
+                           "plan": {"sched": "free", "sched_seed": 1}, "fs": "ext4", "paths": ["src", "dst"]}
 
 
 def expand_case(case):
@@ -175,8 +194,12 @@ def run_case(case):
             argv = [PROBE_BIN["probe_xcp"], case["driver"], case["updater"], case["mode"], str(case["workers"]), str(case["bs"])] + case["flags"] + ["--"] + case["paths"]
             plan["driver"] = case["driver"]
             if case["fault"]:
-                plan["rules"] = [{"id": "f", "sys": case["fault"]["sys"], "under": root + "/", "nth": case["fault"]["nth"], "action": "fault",
-                                  "errno": case["fault"]["errno"]}]
+                rule = {"id": "f", "sys": case["fault"]["sys"], "under": root + ("/dst/" if case["fault"].get("dst_only") else "/"), "nth": case["fault"]["nth"],
+                        "action": "fault", "errno": case["fault"]["errno"]}
+                for k in ("from", "upto"):
+                    if k in case["fault"]:
+                        rule[k] = case["fault"][k]
+                plan["rules"] = [rule]
             run = core.run_supervised(sb, argv, plan)
             sigb = "api:%s:%s:%s:%s" % (case["driver"], case["updater"], case["mode"], case["name"])
             ok = judge_termination(run, res, sigb, " ".join(argv[1:]))
